@@ -23,6 +23,7 @@ import (
 	"fmt"
 	"os"
 	"path/filepath"
+	"runtime/debug"
 	"sort"
 	"strconv"
 	"strings"
@@ -296,12 +297,30 @@ type gen struct{ r *vh.RNG }
 var textVocab = []string{"", "a", "b", "c", "ab", "ba", "abc", "aba", "cab", "bb", "abab", "c-a"}
 var numVocab = []string{"0", "1", "2", "7", "10", "12", "-3", "-10", "007", "x1", "1x", "-", "100"}
 
+// long keyword values with long common prefixes (request ids "<dc>-<service>-<date>-<counter>"): 40..81 bytes, so that
+// the token-table block borders (min / max token of a block) are longer than any fixed-size cut of them
+const long40 = "dc01-checkout-service-2025-09-25-req-000"
+
+var longVocab = []string{long40, long40 + "a", long40 + "b", long40 + "ab", long40 + long40 + "a", long40 + long40 + "b",
+	(long40 + long40)[:72] + "x", (long40 + long40)[:72] + "y"}
+
 func (g gen) pick(v []string) string { return v[g.r.Intn(len(v))] }
 
 // leaf over the fields a, b (text), n (numbers and near-numbers), _all_
 func (g gen) leaf() *parser.ASTNode {
 	r := g.r
-	switch r.Intn(10) {
+	switch r.Intn(11) {
+	case 10: // long tokens: exact, prefix inside / at / beyond the common prefix
+		switch r.Intn(4) {
+		case 0:
+			return lit("t", g.pick(longVocab))
+		case 1:
+			return lit("t", long40, "*")
+		case 2:
+			return lit("t", long40+"a", "*")
+		default:
+			return lit("t", (long40 + long40)[:72], "*")
+		}
 	case 0:
 		return lit("_all_", "*")
 	case 1, 2: // exact
@@ -734,6 +753,9 @@ func (g gen) docTokens() [][2]string {
 	if g.r.Chance(2, 3) {
 		t = append(t, [2]string{"n", g.pick(numVocab)})
 	}
+	if g.r.Chance(1, 3) {
+		t = append(t, [2]string{"t", g.pick(longVocab)})
+	}
 	return t
 }
 
@@ -885,9 +907,52 @@ func chanActiveInverse(o vh.Opts, g gen) *vh.Channel {
 	return ch
 }
 
+// chanActiveInversePooled: the inverser takes its LID -> position table from bytespool.  Every case first builds and
+// releases an inverser that fills the whole size class of the buffer (every slot non-zero), then builds the inverser
+// under test from the pool again with LIDs missing from the mapping: their slots must read "absent".
+func chanActiveInversePooled(o vh.Opts, g gen) *vh.Channel {
+	ch := vh.NewChannel("active.inverse.pooled", "frac.inverseLIDs over a real inverser whose table comes from a pool buffer dirtied by a previous, larger inverser (all slots of the size class non-zero), mapping = permutation of a subset of 1..size-1, unmapped LIDs include ones absent from the mapping, vs ActiveIndex.inverseLIDs; non-trivial = some unmapped LID is absent from the mapping")
+	defer debug.SetGCPercent(debug.SetGCPercent(-1)) // keep sync.Pool content
+	n := o.Pick(3000, 30000)
+	for i := 0; i < n; i++ {
+		size := g.r.Range(2, 120)
+		capInts := 32
+		for capInts < size {
+			capInts *= 2
+		}
+		full := make([]uint32, capInts-1)
+		for k, p := range g.r.Perm(capInts - 1) {
+			full[k] = uint32(p + 1)
+		}
+		for k := 0; k < 3; k++ {
+			frac.VerifC02InverseLIDs(full, capInts, 0, 0, nil)
+		}
+		var mapping []uint32
+		present := map[uint32]bool{}
+		for _, p := range g.r.Perm(size - 1) {
+			if g.r.Chance(4, 5) {
+				mapping = append(mapping, uint32(p+1))
+				present[uint32(p+1)] = true
+			}
+		}
+		var unmapped []uint32
+		absent := false
+		for k := g.r.Intn(size + 2); k > 0; k-- {
+			v := uint32(g.r.Range(1, size-1))
+			unmapped = append(unmapped, v)
+			absent = absent || !present[v]
+		}
+		lo, hi := uint32(g.r.Range(0, 2)), uint32(g.r.Range(size/2, size+1))
+		impl := safely(func() string { return "ok " + vh.JoinInts(frac.VerifC02InverseLIDs(mapping, size, lo, hi, unmapped)) })
+		ch.Add(fmt.Sprintf("inverse %s %d %d %d %s", vh.JoinInts(mapping), size, lo, hi, vh.JoinInts(unmapped)), impl, absent)
+	}
+	return ch
+}
+
 // ---------------------------------------------------------------- real fractions
 
 type env struct {
+	dirtier map[int]*frac.Active // by number of documents
 	dir     string
 	cm      *fracmanager.CacheMaintainer
 	indexer *frac.ActiveIndexer
@@ -903,6 +968,67 @@ func newEnv() (*env, error) {
 	e := &env{dir: d, cm: fracmanager.NewCacheMaintainer(256*consts.MB, 64*consts.MB, nil), indexer: frac.NewActiveIndexer(2, 2), rl: disk.NewReadLimiter(2, nil)}
 	e.indexer.Start()
 	return e, nil
+}
+
+// dirtyPool leaves released inverser tables in the bytes pool whose every slot of the size class that a table of
+// `slots` entries uses is non-zero: an active fraction filling that class is searched by several providers at once.
+func (e *env) dirtyPool(slots int) error {
+	capInts := 32
+	for capInts < slots {
+		capInts *= 2
+	}
+	d := capInts - 1
+	if e.dirtier == nil {
+		e.dirtier = map[int]*frac.Active{}
+	}
+	f := e.dirtier[d]
+	if f == nil {
+		docs := make([]doc, d)
+		for i := range docs {
+			docs[i] = doc{id: seq.ID{MID: seq.MID(1000 + i), RID: seq.RID(i)}, toks: [][2]string{{"_all_", ""}}}
+		}
+		var err error
+		if f, _, err = e.newActive(docs, 64, nil); err != nil {
+			return err
+		}
+		e.dirtier[d] = f
+	}
+	var rel []func()
+	for i := 0; i < 4; i++ {
+		dp, r := f.DataProvider(context.Background())
+		rel = append(rel, r)
+		if _, err := dp.Search(processor.SearchParams{AST: lit("_all_", "*"), To: seq.MID(^uint64(0)), Limit: 1}); err != nil {
+			return err
+		}
+	}
+	for _, r := range rel {
+		r()
+	}
+	return nil
+}
+
+// halfIndex performs the first part of appendWorker for one more document: its id is appended and its field tokens
+// get the new LID, `_all_` does not (yet).  A search over this state sees token lists that are ahead of its `_all_`
+// snapshot - what a search running next to an index worker sees when it reads a token list after the snapshot.
+func halfIndex(a *frac.Active, d doc) {
+	lids := a.AppendIDs([]seq.ID{d.id})
+	var toks [][]byte
+	var fl []int
+	seen := map[[2]string]bool{}
+	for _, t := range d.toks {
+		if t[0] == "_all_" || seen[t] {
+			continue
+		}
+		seen[t] = true
+		toks = append(toks, []byte(t[0]+":"+t[1]))
+		fl = append(fl, len(t[0]))
+	}
+	if len(toks) == 0 {
+		return
+	}
+	for _, p := range a.TokenList.Append(toks, fl, make([]*frac.TokenLIDs, len(toks))) {
+		p.PutLIDsInQueue(lids)
+	}
 }
 
 func (e *env) close() {
@@ -1121,10 +1247,16 @@ type history struct {
 	bulk  int
 	docs  []doc
 	steps []step
+	// half: one more document whose bulk is half indexed (ids and field tokens, not yet `_all_`) when the steps
+	// with n = len(docs)+1 are asked, on a second fraction built from the same documents
+	half *doc
 }
 
 func (h *history) lines() []string {
 	ls := []string{fmt.Sprintf("corpus %d %s", h.bulk, docsStringM(h.docs, "+"))}
+	if h.half != nil {
+		ls = append(ls, "half "+docsString([]doc{*h.half}))
+	}
 	for _, s := range h.steps {
 		ls = append(ls, fmt.Sprintf("ask %d %s %s", s.n, s.w, s.enc))
 	}
@@ -1212,6 +1344,28 @@ func runCorpus(e *env, h *history, act *vh.Channel) ([]sysCase, error) {
 			ask(a, s, "active")
 		}
 	}
+	if h.half != nil && len(docs) > 0 {
+		old := debug.SetGCPercent(-1) // keep the pool's content between dirtying it and the probe
+		a2, _, err := e.newActive(docs, h.bulk, nil)
+		if err == nil {
+			err = e.dirtyPool(len(docs) + 2)
+		}
+		if err != nil {
+			debug.SetGCPercent(old)
+			return nil, err
+		}
+		halfIndex(a2, *h.half)
+		for _, s := range h.steps {
+			if s.n == len(docs)+1 { // the half-indexed document is not part of any answer
+				if err := e.dirtyPool(len(docs) + 2); err != nil {
+					break
+				}
+				cases = append(cases, sysCase{kind: "active-half", n: s.n, w: s.w, query: s.enc, docs: ds, impl: searchFrac(a2, s.ast, s.w), h: h})
+			}
+		}
+		debug.SetGCPercent(old)
+		a2.Release()
+	}
 	if len(docs) == 0 {
 		a.Release()
 		return cases, nil
@@ -1245,6 +1399,13 @@ func plan(g gen, docs []doc, bulk int, qs []*parser.ASTNode, ws []window, mid bo
 	for i := range qs {
 		h.steps = append(h.steps, step{len(docs), ws[i], qs[i], encAST(qs[i])})
 	}
+	if mid && len(docs) > 0 && !hasNested(docs) && g.r.Chance(1, 3) {
+		d := doc{id: seq.ID{MID: docs[g.r.Intn(len(docs))].id.MID, RID: seq.RID(1<<40 + uint64(len(docs)))}, toks: g.docTokens()}
+		h.half = &d
+		for i := range qs {
+			h.steps = append(h.steps, step{len(docs) + 1, ws[i], qs[i], encAST(qs[i])})
+		}
+	}
 	return h
 }
 
@@ -1277,6 +1438,12 @@ func replayHistories(lines []string) ([]*history, []map[string]bool, error) {
 			}
 			hs = append(hs, &history{bulk: b, docs: docs})
 			expects = append(expects, map[string]bool{})
+		case len(f) == 2 && f[0] == "half" && len(hs) > 0:
+			d, err := parseDocs(f[1])
+			if err != nil || len(d) != 1 {
+				return nil, nil, fmt.Errorf("bad half line")
+			}
+			hs[len(hs)-1].half = &d[0]
 		case len(f) == 8 && f[0] == "ask" && len(hs) > 0:
 			n, _ := strconv.Atoi(f[1])
 			ast, _, err := decAST(strings.Split(f[7], "/"))
@@ -1350,6 +1517,9 @@ func main() {
 		}
 		if want("active.merge") {
 			rep.AddChannel(chanActiveMerge(o, gen{rng0.Fork()}), o.Driver)
+		}
+		if want("active.inverse.pooled") {
+			rep.AddChannel(chanActiveInversePooled(o, gen{vh.NewRNG(o.Seed + 78)}), o.Driver)
 		}
 		if want("active.inverse") {
 			rep.AddChannel(chanActiveInverse(o, gen{rng0.Fork()}), o.Driver)
